@@ -1,3 +1,3 @@
 From Coq Require Import Extraction ExtrOcamlBasic.
-From SLU Require Import PivotModel.
-Extraction "pivot_model.ml" pivotL.
+From SLU Require Import PivotModel InfoModel.
+Extraction "pivot_model.ml" pivotL gstrf_info.
